@@ -235,6 +235,8 @@ def run(rep, tier):
         for sig, what, text in res["bad"]:
             rep.violation("C03/" + sig, what, {"src": text, "oracle": "token dump vs reference lexer"})
         cli += res["cli"]
+        for t, acc, al in res["cli"][:1]:
+            rep.actual_sample({"family": res["family"], "input": t[:400], "parser": "accepted" if acc else al[:120]})
     rng.shuffle(cli)
     ncli = 5000 if tier == "quick" else 60000
     cli = cli[:ncli]
